@@ -26,6 +26,7 @@ import (
 	"fmt"
 	"math/rand"
 	"os"
+	"runtime/debug"
 	"strconv"
 	"syscall"
 	"testing"
@@ -139,6 +140,9 @@ func (m *c05Machine) install() func() {
 		if !ok {
 			panic(fmt.Sprintf("page fault: access to unmapped address %x", entryAddr))
 		}
+		if !m.inPool(pa >> 12) {
+			panic(fmt.Sprintf("machine check: access to non-existent memory %x", pa))
+		}
 		m.lastPTE = unsafe.Pointer(pa)
 		return m.lastPTE
 	}
@@ -160,6 +164,9 @@ func (m *c05Machine) install() func() {
 		if !ok {
 			panic("page fault: temporary page not mapped")
 		}
+		if !m.inPool(pa >> 12) {
+			panic("machine check: temporary page points to non-existent memory")
+		}
 		m.tmpAlias = mm.Page(pa >> 12)
 		return m.tmpAlias, nil
 	}
@@ -175,7 +182,9 @@ func (m *c05Machine) install() func() {
 	mapFn = Map
 	earlyReserveRegionFn = EarlyReserveRegion
 	mm.SetFrameAllocator(m.alloc)
+	oldPoF := debug.SetPanicOnFault(true) // a stray access of the code under test becomes a recoverable panic
 	return func() {
+		debug.SetPanicOnFault(oldPoF)
 		ptePtrFn, nextAddrFn, flushTLBEntryFn, activePDTFn, switchPDTFn = o1, o2, o3, o4, o5
 		mapTemporaryFn, unmapFn, handleInterruptFn, visitElfSectionsFn, translateFn, mapFn = o6, o7, o8, o9, o10, o11
 		earlyReserveRegionFn = o12
@@ -403,10 +412,18 @@ func c05Run(m *c05Machine, enc *json.Encoder, c c05Case) {
 		secs = append(secs, c05Ev{"a": c05W64(s.Addr), "sz": c05W64(s.Size), "fl": int(s.Flags & 0xffff)})
 	}
 	rsv := []c05Ev{}
+	corrupt := false // the boot history left page tables that point outside physical memory
 	for _, a := range reserved {
-		if pa, _, _, _, ok := m.xlate(m.active, a); ok {
-			rsv = append(rsv, c05Ev{"p": c05W64(uint64(a >> 12)), "f": c05W64(uint64(pa >> 12))})
-		}
+		func() {
+			defer func() {
+				if recover() != nil {
+					corrupt = true
+				}
+			}()
+			if pa, _, _, _, ok := m.xlate(m.active, a); ok {
+				rsv = append(rsv, c05Ev{"p": c05W64(uint64(a >> 12)), "f": c05W64(uint64(pa >> 12))})
+			}
+		}()
 	}
 	enc.Encode(c05Ev{"k": "cfg", "off": c05W64(c.Off), "secs": secs, "rsv": rsv, "hist": hist,
 		"tmp": c05W64(uint64(tempMappingAddr >> 12)), "failat": c.FailAt, "leg": os.Getenv("VERIF_LEG")})
@@ -418,6 +435,9 @@ func c05Run(m *c05Machine, enc *json.Encoder, c c05Case) {
 				s = "panic"
 			}
 		}()
+		if corrupt {
+			return "machine-check"
+		}
 		if err := Init(uintptr(c.Off)); err != nil {
 			return "err:" + err.Message
 		}
